@@ -70,6 +70,30 @@ func init() {
 		})
 		_ = cp
 		f.Bool("installBeforeClear", rp >= 0 && last >= 0 && rp < last)
+		// the second look at a field that has appeared since validation compares its type
+		ssrc, err := Parse(repo, "tsdb/shard.go")
+		if err != nil {
+			return err
+		}
+		vfn := ssrc.Func("Shard", "validateSeriesAndFields")
+		if vfn == nil {
+			return fmt.Errorf("C19: validateSeriesAndFields not found")
+		}
+		rechecked := false
+		ast.Inspect(vfn, func(n ast.Node) bool {
+			ifs, ok := n.(*ast.IfStmt)
+			if !ok || ifs.Init == nil || !strings.Contains(ssrc.Text(ifs.Init), "mf.FieldBytes(fieldKey)") {
+				return true
+			}
+			ast.Inspect(ifs.Body, func(m ast.Node) bool {
+				if b, ok := m.(*ast.BinaryExpr); ok && strings.Contains(ssrc.Text(b), "f.Type != dataType") {
+					rechecked = true
+				}
+				return true
+			})
+			return true
+		})
+		f.Bool("typeRecheckedAtSecondLook", rechecked)
 		return f.Write(out)
 	})
 }
